@@ -215,6 +215,8 @@ type vfGenOpts struct {
 	IPPool    []string // allow/block entries to draw from
 	Bias12    bool     // bias towards the shapes C12 names
 	BodyLimit bool     // generate clientMaxBodySize at path and server level
+	NoHeaders bool     // no header-conditioned entries at all
+	ServerIPF bool     // always generate a server-level ip filter
 }
 
 func vfSubset(t *rapid.T, pool []string, label string, maxN int) []string {
@@ -299,7 +301,7 @@ func vfGenPath(t *rapid.T, label string, o vfGenOpts) vfPath {
 	if o.Bias12 {
 		hdrChance = 1
 	}
-	if rapid.IntRange(0, hdrChance).Draw(t, label+".hashdr") == 0 {
+	if !o.NoHeaders && rapid.IntRange(0, hdrChance).Draw(t, label+".hashdr") == 0 {
 		p.Headers = vfGenHeaders(t, label+".h")
 		p.MatchAll = rapid.Bool().Draw(t, label+".matchall")
 	}
@@ -365,7 +367,7 @@ func vfGenServer(t *rapid.T, o vfGenOpts) vfServer {
 		}
 		s.Rules = append(s.Rules, r)
 	}
-	if o.IPFilters && rapid.IntRange(0, 2).Draw(t, "srv.hasipf") == 0 {
+	if o.IPFilters && (rapid.IntRange(0, 2).Draw(t, "srv.hasipf") == 0 || o.ServerIPF) {
 		s.IPF = vfGenIPF(t, "srv.ipf", o.IPPool)
 	}
 	if o.BodyLimit {
